@@ -147,9 +147,21 @@ def build_instance(inst: dict, name: str | None = None):
         # type the instance stores - and re-uses that buffer afterwards
         import numpy as np
         probe = Instance(nm, int(inst["W"]), int(inst["H"]), rows)
-        dt = probe.dtype if caller["src"] == "auto" else np.int64
-        src = np.array(rows, dtype=dt)
+        if caller["src"] == "instance":
+            # another Instance (same items, a bin just large enough for
+            # them - hence possibly a narrower storage type) as the matrix
+            mw = max(max(r[0], r[1]) for r in rows)
+            src = Instance(nm + "src", mw, mw, rows)
+        else:
+            dt = probe.dtype if caller["src"] in ("auto", "fortran") \
+                else np.int64
+            src = np.array(rows, dtype=dt)
+            if caller["src"] == "fortran":
+                # column-major, as np.array([widths, heights, reps]).T is
+                src = np.asfortranarray(src)
         out = Instance(nm, int(inst["W"]), int(inst["H"]), src)
+        if caller["src"] == "instance":
+            return out
         if caller["reuse"] == "scale":
             src *= 3
         else:
